@@ -57,7 +57,7 @@ def run(ctx):
                    not unexpected, "automata %s fail only inside Coq" % unexpected)
         if unexpected:
             w = re.search(r"^W\s*=\s*(.*?)\n\s*:\s", outp, re.S | re.M)
-            ctx.violations.append({"kind": "class_check", "sig": "class_check fails for automata %s (%s)" % (unexpected, name),
+            ctx.violations.append({"kind": "class_check", "static": True, "sig": "class_check fails for automata %s (%s)" % (unexpected, name),
                                    "detail": {"automata_ids": unexpected, "witnesses": (w.group(1)[:1500] if w else "")}})
     ctx.coverage["programs"] = n_coq
     ctx.coverage["automata_checked_in_coq"] = checked
